@@ -2347,7 +2347,7 @@ int _vnaproperty_yaml_export(vnaproperty_yaml_t *vymlp,
 	    yaml_scalar_style_t style = YAML_ANY_SCALAR_STYLE;
 
 	    if ((value = vnaproperty_get(root, ".")) == NULL) {
-		_vnaproperty_yaml_error(vymlp, VNAERR_INTERNAL,
+		_vnaproperty_yaml_error(vymlp, VNAERR_SYSTEM,
 			"%s: _vnaproperty_get: %s: %s",
 			__func__, vymlp->vyml_filename, strerror(errno));
 		return -1;
@@ -2398,10 +2398,20 @@ int _vnaproperty_yaml_export(vnaproperty_yaml_t *vymlp,
 		int value;
 
 		if ((key = vnaproperty_quote_key(*cpp)) == NULL) {
+		    _vnaproperty_yaml_error(vymlp, VNAERR_SYSTEM,
+			    "vnaproperty_quote_key: %s", strerror(errno));
 		    free((void *)keys);
 		    return -1;
 		}
+		errno = 0;
 		subtree = vnaproperty_get_subtree(root, "%s", key);
+		if (subtree == NULL && errno != 0) {
+		    _vnaproperty_yaml_error(vymlp, VNAERR_SYSTEM,
+			    "vnaproperty_get_subtree: %s", strerror(errno));
+		    free((void *)keys);
+		    free((void *)key);
+		    return -1;
+		}
 		if ((value = _vnaproperty_yaml_export(vymlp, subtree)) == -1) {
 		    free((void *)keys);
 		    free((void *)key);
@@ -2421,8 +2431,13 @@ int _vnaproperty_yaml_export(vnaproperty_yaml_t *vymlp,
     case VNAPROPERTY_LIST:
 	{
 	    int sequence;
-	    int count = vnaproperty_count(root, "[]");
+	    int count;
 
+	    if ((count = vnaproperty_count(root, "[]")) == -1) {
+		_vnaproperty_yaml_error(vymlp, VNAERR_SYSTEM,
+			"vnaproperty_count: %s", strerror(errno));
+		return -1;
+	    }
 	    errno = 0;
 	    if ((sequence = yaml_document_add_sequence(document, NULL,
 			    YAML_BLOCK_SEQUENCE_STYLE)) == 0) {
@@ -2438,7 +2453,13 @@ int _vnaproperty_yaml_export(vnaproperty_yaml_t *vymlp,
 		vnaproperty_t *subtree;
 		int value;
 
+		errno = 0;
 		subtree = vnaproperty_get_subtree(root, "[%d]", i);
+		if (subtree == NULL && errno != 0) {
+		    _vnaproperty_yaml_error(vymlp, VNAERR_SYSTEM,
+			    "vnaproperty_get_subtree: %s", strerror(errno));
+		    return -1;
+		}
 		if ((value = _vnaproperty_yaml_export(vymlp, subtree)) == -1) {
 		    return -1;
 		}
